@@ -1,0 +1,26 @@
+//go:build verif
+
+// Package verifhook marks the synchronisation boundaries of the secure
+// channel for the scheduling controller of the verification harness.
+package verifhook
+
+import "sync/atomic"
+
+var hook atomic.Pointer[func(string)]
+
+// Set installs (or with nil removes) the function called at every scheduling point.
+func Set(f func(name string)) {
+	if f == nil {
+		hook.Store(nil)
+		return
+	}
+	hook.Store(&f)
+}
+
+// Point marks a scheduling point: the installed controller may block the
+// calling goroutine here until the schedule says it may continue.
+func Point(name string) {
+	if f := hook.Load(); f != nil {
+		(*f)(name)
+	}
+}
